@@ -346,6 +346,65 @@ func C17(c *fw.Ctx) {
 			}
 		}
 	}
+	// one call site, many callees: a function that applies its parameter to constant arguments is given
+	// every built-in of that arity (and a user function) in turn -- every ordered pair, the first one
+	// again afterwards -- and a loop calls every element of an array of built-ins at one call site, in
+	// both orders: the value is the one of the function that is called now
+	{
+		id, num := model.Id, model.Num
+		unary := []string{model.BiAbs, model.BiSqrt, model.BiRound, model.BiSin, model.BiCos, model.BiTan, "neg"}
+		binary := []string{model.BiPow, model.BiMin, model.BiMax, "sub"}
+		pre := func() []*model.N {
+			return []*model.N{
+				model.Fun("neg", []string{"x"}, model.Return(model.Un("-", id("x")))),
+				model.Fun("sub", []string{"x", "y"}, model.Return(model.Bin("-", id("x"), id("y")))),
+				model.Fun("ap", []string{"f"}, model.Return(model.Call(id("f"), num(6.25)))),
+				model.Fun("apn", []string{"f"}, model.Return(model.Call(id("f"), model.Un("-", num(0.5))))),
+				model.Fun("ap2", []string{"f"}, model.Return(model.Call(id("f"), model.Un("-", num(3)), model.Grp(num(2))))),
+			}
+		}
+		for _, set := range []struct {
+			names []string
+			aps   []string
+		}{{unary, []string{"ap", "apn"}}, {binary, []string{"ap2"}}} {
+			for _, f := range set.names {
+				for _, g := range set.names {
+					if !c.Mine() {
+						continue
+					}
+					prog := pre()
+					for _, ap := range set.aps {
+						prog = append(prog, model.Print(model.CallN(ap, id(f))), model.Print(model.CallN(ap, id(g))), model.Print(model.CallN(ap, id(f))))
+					}
+					judge(c, prog, judgeOpts{SigPrefix: "one-call-site-many-callees|pairs"})
+				}
+			}
+			for rev := 0; rev < 2; rev++ {
+				if !c.Mine() {
+					continue
+				}
+				var el []*model.N
+				for i := range set.names {
+					k := i
+					if rev == 1 {
+						k = len(set.names) - 1 - i
+					}
+					el = append(el, id(set.names[k]))
+				}
+				call := model.Call(model.Idx(id("fs"), id("i")), num(6.25))
+				if len(set.aps) == 1 {
+					call = model.Call(model.Idx(id("fs"), id("i")), model.Un("-", num(3)), num(2))
+				}
+				prog := append(pre(), model.Var("fs", model.Arr(el...)),
+					model.For(model.Var("i", num(0)), model.Bin("<", id("i"), model.CallN(model.BiLen, id("fs"))), model.Asg("i", model.Bin("+", id("i"), num(1))), model.Block(model.Print(call))),
+					model.Var("h", model.Idx(id("fs"), num(0))), model.Var("j", num(0)),
+					model.While(model.Bin("<", id("j"), model.CallN(model.BiLen, id("fs"))), model.Block(
+						model.ExprS(model.Asg("h", model.Idx(id("fs"), id("j")))), model.ExprS(model.Asg("j", model.Bin("+", id("j"), num(1)))),
+						model.If(model.Bin("==", model.CallN(model.BiLen, id("fs")), num(7)), model.Block(model.Print(model.CallN("h", num(6.25)))), model.Block(model.Print(model.CallN("h", num(2), num(5))))))))
+				judge(c, prog, judgeOpts{SigPrefix: "one-call-site-many-callees|loop"})
+			}
+		}
+	}
 	// ঘাত(a, b) must be the very double a ** b is: bases x whole and fractional exponents
 	bases := []float64{10, 2.5, 0.1, 3, 1.5, 7, 0.3, 2, 0.5, 1e10, 1e-10, 123456.789, -10, -2.5, -0.1, 1.0000000001, 0.9999999999, 1e154, 1e-154, 17, 1.1}
 	var exps []float64
